@@ -4,6 +4,7 @@ The several time.Now() reads inside one call are collapsed to one instant per ca
 -/
 import LA.Props.C10
 import LA.Props.C03
+import LA.Proofs.StateFacts
 
 namespace LA.Reasm
 
@@ -90,3 +91,9 @@ example : (run (init 5 100) [.push ⟨1, 7, 1300⟩ 0 50, .maintain 100, .mainta
     = [[], [], [.group [⟨1, 7, 1300⟩]]] := by decide
 
 end LA.Reasm
+
+/-! ### the code keeps nothing between calls that the model does not have -/
+
+/-- Outside `init`, no function of the root package writes a package-level variable, takes the address of one or calls a
+sync/atomic method on one (regenerated list, see LA.Proofs.StateFacts): all state is in the object the model is given. -/
+theorem C19_state_is_in_the_object : LA.StateFacts.ofPkg "" = [] := by decide
